@@ -58,6 +58,8 @@ pub fn property() -> Property {
             "Platt A and B are recovered by calling the public platt_newton_method on the same inputs fit_with uses; monotonicity allows 4 f32 ulps because e/(1+e) evaluated in f32 is not exactly monotone".into(),
             "every calling-form comparison includes predict_inplace into a buffer of default_target's shape pre-filled with a generated junk value, predict_inplace twice into one buffer, and predict_inplace of a second batch of equal length into the buffer holding the first result; all bit-identical to the clean result".into(),
             "poisoned neighbour: in every batch of m >= 2 rows one generated non-last row is replaced by a row holding NaN / +inf / -inf / +1e300 / -1e300 in one or all features; every OTHER row must keep the prediction it has alone (same exactness / tolerance as batch-vs-single); the poisoned row itself is not judged; if predicting the poisoned row alone panics, a panic of the poisoned batch is accepted (class poisoned_row_panics_alone), otherwise the batch must not panic".into(),
+            "single-sample entry points (Svm<bool> incl. one-class, Svm<Pr>, Svm<f64> regression: Predict on a 1-D array; KMeans: Predict / PredictInplace on a 1-D array) are called with an owned Array1, a contiguous, a strided and a reversed ArrayView1 of every query row and must equal the one-row batch bit for bit (they call the same weighted_sum / closest_centroid, no tolerance)".into(),
+            "stratum svm_boundary: point-symmetric integer training sets (p_i true, -p_i false) for C-SVC / one-class, linear and Gaussian kernel; queries at the origin, orthogonal to w, at training points, mirrored pairs; decision value exactly 0 is reached either because the fit returns rho == 0.0 or by assigning the public field rho := weighted_sum(first query row); classes decision_value_exactly_zero and boundary_rho_exactly_zero_from_fit are required".into(),
             "strata platt_extreme / svm_pr_extreme: A*f+B is driven onto ±{0,1e-3,1,10,50,88,89,100,700,1e4,1e30} (platt_predict directly with generated A of both signs and B; a fitted Platt around a mock inner model; Svm<Pr> with a linear kernel and queries scaled by ±1e3..1e6, 1e30): finite, in [0,1], within 3e-6 of the f64 sigmoid, monotone, no panic".into(),
             "outside those two strata queries stay finite and within a few standard deviations of the training data; NaN/inf inputs and feature-count mismatches (documented assertion panics) are not generated".into(),
             "FastICA (owned Array2 only, not in the statement's list) is not covered; sparse-kernel SVMs are not covered".into(),
@@ -67,6 +69,9 @@ pub fn property() -> Property {
             sub("gmm", DOM_P2, models_cluster::check_gmm),
             sub("svm_pr", DOM_SVM, models_svm::check_svm_pr),
             sub("svm_pr_extreme", DOM_SVM, models_svm::check_svm_pr_extreme),
+            prop_sub("svm_boundary", QUICK, THOROUGH, move |t: Tier| case_strategy(t, DOM_SVM), models_svm::check_svm_boundary)
+                .chunks(4)
+                .require(&["batch_multi_row", "batch_empty", "decision_value_exactly_zero", "decision_value_exactly_zero_with_fitted_rho", "boundary_rho_exactly_zero_from_fit", "single_sample_form_checked", "poisoned_neighbour"]),
             sub("platt_extreme", DOM_SVM, models_wrap::check_platt_extreme),
             sub("multiclass", DOM_SVM, models_wrap::check_multiclass),
             sub("multilogistic", DOM_STD, models_classif::check_multilogistic),
